@@ -46,8 +46,18 @@ def draw_pop(draw, n_ids, kinds=ELEM_KINDS, max_parts=4, max_dim=3, p_cov=0.3, p
     return s
 
 
-def _draw_elem_theta(draw, spec, n_ids):
+def _draw_elem_theta(draw, spec, n_ids, positive=False):
     k, d = spec['kind'], spec['n_dim']
+    if positive and k in ('gauss', 'trunc'):
+        # individual values mu + sigma*z with |z| <= 3 stay positive
+        mu = draw(gen.vec(gen.logu(0.5, 5.0), d))
+        f = draw(gen.vec(gen.logu(0.02, 0.3), d))
+        return mu + [gen.r6(a * b) for a, b in zip(mu, f)]
+    if positive and k == 'lognorm':
+        return draw(gen.vec(gen.real(-1, 1), d)) + draw(gen.vec(gen.logu(0.05, 0.5), d))
+    if positive and k in ('pooled', 'hetero'):
+        n = d if k == 'pooled' else d * n_ids
+        return gen.distinct(draw(gen.vec(gen.logu(0.3, 5.0), n)))
     if k == 'gauss':
         return draw(gen.vec(gen.real(-10, 10), d)) + draw(gen.vec(gen.logu(1e-2, 1e2), d))
     if k == 'lognorm':
@@ -63,24 +73,25 @@ def _draw_elem_theta(draw, spec, n_ids):
     raise ValueError(k)
 
 
-def draw_theta(draw, spec, n_ids, cov):
+def draw_theta(draw, spec, n_ids, cov, positive=False):
     """In-support parameter vector (list of floats) for spec, given the covariate
-    matrix cov (n_ids x n_cov of this spec) -- scales stay positive for every individual."""
+    matrix cov (n_ids x n_cov of this spec) -- scales stay positive for every individual.
+    positive=True additionally keeps every individual value psi positive (|z| <= 3)."""
     k = spec['kind']
     if k in ref.ELEM:
-        return _draw_elem_theta(draw, spec, n_ids)
+        return _draw_elem_theta(draw, spec, n_ids, positive)
     if k == 'comp':
         out = []
         c0 = 0
         for part in spec['parts']:
             nc = ref.pop_n_cov(part)
             sub = [row[c0:c0 + nc] for row in cov] if cov is not None else None
-            out += draw_theta(draw, part, n_ids, sub)
+            out += draw_theta(draw, part, n_ids, sub, positive)
             c0 += nc
         return out
     if k == 'cov':
         base = spec['base']
-        th0 = _draw_elem_theta(draw, base, n_ids)
+        th0 = _draw_elem_theta(draw, base, n_ids, positive)
         nd = base['n_dim']
         n_cov = spec['n_cov']
         cmax = [max([abs(row[c]) for row in cov] + [1e-9]) for c in range(n_cov)]
@@ -93,6 +104,10 @@ def draw_theta(draw, spec, n_ids, cov):
                     f = f / 3.0   # keeps mu/sigma of every individual above about -4.7
                 if zero_beta:
                     b = 0.0
+                elif positive and base['kind'] in ('gauss', 'trunc') and p == 0:
+                    b = 0.2 * f * th0[d] / (n_cov * cmax[c])       # location shift <= 18 % of mu
+                elif positive and base['kind'] == 'lognorm' and p == 0:
+                    b = 0.3 * f / (n_cov * cmax[c])
                 elif base['kind'] in ('gauss', 'lognorm', 'trunc') and p == 1:
                     # scale parameter: keep sigma + sum_c beta_c chi_c > 0 for every individual
                     b = f * th0[nd + d] / (n_cov * cmax[c])
@@ -109,10 +124,12 @@ def draw_theta(draw, spec, n_ids, cov):
     raise ValueError(k)
 
 
-def draw_reduced(draw, spec, n_ids, cov, min_fixed=1):
+def draw_reduced(draw, spec, n_ids, cov, min_fixed=1, positive=False):
     """Wrap spec in a 'red' node fixing a subset of its parameters; returns
     (red_spec, free theta)."""
-    full = draw_theta(draw, spec, n_ids, cov)
+    full = draw_theta(draw, spec, n_ids, cov, positive)
+    if len(full) < 2:
+        return spec, full          # never fix every parameter (an object without parameters)
     fixed = draw(gen.subset(len(full), min_size=min(min_fixed, len(full)), max_size=max(1, len(full) - 1)))
     red = dict(kind='red', base=spec, fixed=fixed, values=[full[j] for j in fixed])
     theta = [v for j, v in enumerate(full) if j not in fixed]
